@@ -673,7 +673,7 @@ class _SymU:
 
 class _Enum:
     def __init__(self, prefix):
-        self.prefix, self.path, self.prob, self.alts = list(prefix), [], 1.0, []
+        self.prefix, self.path, self.prob, self.alts, self.ps = list(prefix), [], 1.0, [], []
     def decide(self, p):
         p = 0.0 if not (p > 0.0) else (1.0 if p >= 1.0 else p)
         i = len(self.path)
@@ -683,7 +683,7 @@ class _Enum:
             b = p > 0.0
             if 0.0 < p < 1.0:
                 self.alts.append(self.path + [False])
-        self.path.append(b)
+        self.path.append(b); self.ps.append(p)
         self.prob *= p if b else (1.0 - p)
         return b
 
@@ -692,7 +692,7 @@ def transition_law(cuqi, case, iface, x, r, e):
     """exact law {next point (rounded tuple): probability} of ONE transition of the implementation from (x, r) with slice
     offset e, over all outcomes of its uniform draws (depth-first over the `rand() < p` decisions)"""
     target, _ = make_target(cuqi, case["P"], case["b"], None)
-    law = {}; stack = [[]]; paths = 0
+    law = {}; stack = [[]]; paths = 0; details = []
     while stack:
         prefix = stack.pop()
         en = _Enum(prefix)
@@ -717,9 +717,11 @@ def transition_law(cuqi, case, iface, x, r, e):
         if en.prob > 0.0:
             k = tuple(np.round(xn, 9))
             law[k] = law.get(k, 0.0) + en.prob
+            details.append((list(zip(en.path, en.ps)), xn.copy(), en.prob))
         stack.extend(en.alts)
         if paths > 3000:
             return None, paths
+    transition_law.last_details = details
     return law, paths
 
 
@@ -762,6 +764,32 @@ def reversibility_case(ctx, cuqi, case, iface, e0, key):
     if nf or not moved:
         return nf if nf else None
     ctx.case("orbit-reversibility", {**desc, "reached": sorted(P0)})
+    # path-wise tie of the WHOLE decision tree to the executable model: every branch of the exact enumeration is replayed on
+    # the model with each uniform placed 2^-30 on the taken side of the implementation's own threshold p; the model must take
+    # the same branch everywhere and end in the same state (so the two transition laws coincide on this orbit)
+    if case.get("center") is None and not case.get("const"):
+        det = list(getattr(transition_law, "last_details", []))[:400]
+        dl = 2.0 ** -30
+        lines = []
+        for decisions, xn, pr in det:
+            us = [(0.5 if (p_ <= 0.0 or p_ >= 1.0) else (p_ - dl if b_ else p_ + dl)) for b_, p_ in decisions]
+            us = [min(max(u_, 2.0 ** -40), 1 - 2.0 ** -40) for u_ in us] + [0.5] * 4
+            lines.append(line_of(dict(case, us=us, e=e0, x=[float(v) for v in orb[0][0]], r=[float(v) for v in orb[0][1]]), 1))
+        mouts = ctx.lean.drive(lines) if lines else []
+        ntied = 0
+        for (decisions, xn, pr), mo in zip(det, mouts):
+            if mo in ("bad-op", "err-nonfinite-start"):
+                continue
+            f = [t.strip() for t in mo.split("|")]
+            if float(Fraction(f[7])) < 1e-7:
+                continue
+            ntied += 1
+            mx = [float(v) for v in pv(f[1])]
+            if int(f[3]) != len(decisions) or not vclose(xn, mx, 1e-7):
+                ctx.disagree(key, {**desc, "decisions": [[bool(b_), p_] for b_, p_ in decisions]}, {"next state": mx, "draws": int(f[3])},
+                             {"next state": xn.tolist(), "draws": len(decisions)}, "a branch of the transition's decision tree differs from the model")
+                break
+        ctx.extra_cov["c08_law_paths_tied"] = ctx.extra_cov.get("c08_law_paths_tied", 0) + ntied
     for j in sorted(moved):
         if orb[j][2] < logu:
             ctx.fail(key, {**desc, "j": j}, "selected points lie in the slice", {"H_j - log u": orb[j][2] - logu}, "a point outside the slice is selected with positive probability"); nf += 1; continue
